@@ -34,6 +34,15 @@ def must_accept(prop, what, fn, *args, **kwargs):
                         key=f"refused:{what.split('(')[0]}") from e
 
 
+def feature_speller(how):
+    """The ways a caller may write a Wishbone feature collection (all documented as accepted:
+    any iterable of wishbone.Feature members or of their string values)."""
+    from amaranth_soc import wishbone
+    return {"enum": lambda fs: {wishbone.Feature(f) for f in fs},
+            "frozenset": lambda fs: frozenset(fs), "list": lambda fs: sorted(fs),
+            "tuple": lambda fs: tuple(sorted(fs))}.get(how, lambda fs: set(fs))
+
+
 def spelled(omit, defaults, **kwargs):
     """Keyword arguments as a caller may spell them: when `omit` is set, every argument whose
     value is the documented default is left out (the default must then mean the same)."""
